@@ -13,14 +13,14 @@ OpRec(n) == [op |-> n, w |-> W, sw |-> W, p |-> 0, k |-> <<>>]
 ConstRec(v) == [op |-> "arith.constant", w |-> W, sw |-> W, p |-> 0, k |-> <<v>>]
 ArgRec(i) == [op |-> "arg", i |-> i]
 
-VARIABLES g, root
-vars == <<g, root>>
+VARIABLES g, root, last      \* last: name of the action that produced the state (lets TLC show that every action is taken)
+vars == <<g, root, last>>
 \* initial e-graph: the term  op1(arg1, op2(arg2, const))  one class per node (what eqsat-create-eclasses builds)
 Init == \E o1 \in Ops, o2 \in Ops, v \in {0, 1} :
   /\ g = [nodes |-> << [o |-> ArgRec(1), kids |-> <<>>, cls |-> 1], [o |-> ArgRec(2), kids |-> <<>>, cls |-> 2],
                       [o |-> ConstRec(v), kids |-> <<>>, cls |-> 3], [o |-> OpRec(o2), kids |-> <<2, 3>>, cls |-> 4],
                       [o |-> OpRec(o1), kids |-> <<1, 4>>, cls |-> 5] >>, nclasses |-> 5]
-  /\ root = 5
+  /\ root = 5 /\ last = "init"
 SoundEverywhere(h) == \A args \in ArgTuples : ClassSound(h, args)
 SameValueEverywhere(h, n) == \A args \in ArgTuples :
   LET val == ClassValues(h, args) IN NodeReady(n, val) /\ val[n.cls] # Undef /\ NodeVal(n, val, args) = val[n.cls]
@@ -30,16 +30,16 @@ AddNode == /\ Len(g.nodes) < MaxNodes
                 /\ \A j \in DOMAIN g.nodes : ~(SameOp(g.nodes[j], n) /\ g.nodes[j].cls = c)
                 /\ SameValueEverywhere(g, n)                   \* the rewrite rule is sound
                 /\ g' = [g EXCEPT !.nodes = Append(@, n)]
-           /\ UNCHANGED root
+           /\ UNCHANGED root /\ last' = "add"
 Rename(h, c, d) == [h EXCEPT !.nodes = [j \in DOMAIN h.nodes |->
                       [h.nodes[j] EXCEPT !.cls = IF @ = d THEN c ELSE @, !.kids = [k \in DOMAIN @ |-> IF @[k] = d THEN c ELSE @[k]]]]]
 Merge == \E c, d \in 1 .. g.nclasses :
            /\ c < d /\ \E j \in DOMAIN g.nodes : g.nodes[j].cls = d
            /\ (Guarded => \A args \in ArgTuples : ClassValues(g, args)[c] = ClassValues(g, args)[d])   \* the rule is sound
-           /\ g' = Rename(g, c, d) /\ root' = IF root = d THEN c ELSE root
+           /\ g' = Rename(g, c, d) /\ root' = (IF root = d THEN c ELSE root) /\ last' = "merge"
 Rebuild == \E i, j \in DOMAIN g.nodes :
            /\ SameOp(g.nodes[i], g.nodes[j]) /\ g.nodes[i].cls < g.nodes[j].cls           \* no guard: congruence
-           /\ g' = Rename(g, g.nodes[i].cls, g.nodes[j].cls) /\ root' = IF root = g.nodes[j].cls THEN g.nodes[i].cls ELSE root
+           /\ g' = Rename(g, g.nodes[i].cls, g.nodes[j].cls) /\ root' = (IF root = g.nodes[j].cls THEN g.nodes[i].cls ELSE root) /\ last' = "rebuild"
 Next == AddNode \/ Merge \/ Rebuild
 Spec == Init /\ [][Next]_vars
 
@@ -50,4 +50,7 @@ RootKeepsItsValue ==      \* the root class denotes the original term for every 
 \* extraction: any choice of one ready member per class (taken in saturation order) evaluates to the class value -
 \* this is ClassSound itself; cost only selects among members
 ExtractionSound == Sound
+NeverAdd == last # "add"
+NeverMerge == last # "merge"
+NeverRebuild == last # "rebuild"
 =============================================================================
